@@ -229,3 +229,53 @@ PROPS["C06"] = dict(
     assumptions=["well-formed model in potential form (DESIGN.md 5.2)", "NoClamp", "AttMerge (dynamic variable orders)"],
     rule=MDD_RULE, trivial_tags=MDD_TRIVIAL,
 )
+
+PAR_RULE = ("random TableDP / Knapsack instances x {LEL, frontier, pooled} x {EmptyCache, SimpleCache} x {SimpleFringe, NoDupFringe} x width heuristics x 1..4 worker threads, the real ParallelSolver under the controlled scheduler "
+            "(hook H1: one worker runs between two acquisitions of the critical mutex; at quiescence the policy - uniform random or PCT-style priorities with change points, derived from the seed - picks who enters its next section; "
+            "in a third of the runs every cache read / write inside a compilation is a scheduling point too); variants: thread count different from the construction-time count (--resize), cutoff at poll 1..13 (--cutoff); "
+            "the linearised trace is replayed through the Lean model of the parallel solver and through the synchronisation skeleton; deadlock = quiescent state with a parked worker and nobody runnable; non-termination = step bound; "
+            "non-trivial = a worker waited on the condvar, more than two compilations, a cutoff, a resize; distinct = distinct instance + configuration + schedule")
+PAR_TRIVIAL = ["lel", "frontier", "pooled", "cache", "nocache", "threads1", "threads2", "threads3", "threads4", "cache_yield"]
+PAR_TB = SEQ_TB + ["parking_lot::{Mutex, Condvar}: sections are atomic, wait releases the lock and parks atomically, notify_all wakes every parked worker; std::thread::scope joins all workers (modelled, not verified)",
+                   "hook H1 (feature xgillard_ddo_verif, add-only) and the harness scheduler; weak-memory effects are outside the model"]
+PAR_ENGINES = [dict(name="par", label="par", args=[]), dict(name="par", label="par_resize", args=["--resize"]), dict(name="par", label="par_cutoff", args=["--cutoff"])]
+
+PROPS["C04"] = dict(
+    modules=["DdoModel.Props.C04"],
+    theorems=["Ddo.C04.par_ongoing_inv", "Ddo.C04.par_reachable_inv", "Ddo.C04.par_no_crash", "Ddo.C04.par_no_stuck", "Ddo.C04.par_complete_only_when_closed",
+              "Ddo.C04.initial_inv", "Ddo.C04.maximize_never_stuck", "Ddo.ParSync.stepAt_sound", "Ddo.ParSync.stepOrStutter_sound", "Ddo.ParSync.invB_iff",
+              "Ddo.ParSync.d3_step1", "Ddo.ParSync.d3_step2", "Ddo.ParSync.s2_stuck"],
+    stated_not_proved=["Ddo.C04.par_terminates (finitely many steps: needs the data-level progress of C08 (ii)); non-termination is watched by the scheduler's step bound"],
+    level_text="For the synchronisation skeleton of the parallel solver (any number of workers, every interleaving, cutoff firing at any moment) it is proved by induction over the transition relation that: the ongoing counter equals the number of workers holding a node and a parked worker implies work in progress (inductive invariant); no worker crashes when upper_bounds has a cell per worker; in every state reachable from the initial state of maximize() in which some worker has not left its loop some step is enabled (no deadlock, no lost wake-up); Complete is answered only when nothing is open or in progress. The skeleton is tied to the code in two checked hops: the executable model of the parallel solver is validated trace by trace against the real solver under a controlled scheduler, and every section of the executable model is checked (by a recogniser proved sound) to be invisible to the skeleton or exactly one of its steps, with the invariant evaluated in every state. The D3 deadlock (with_nb_threads above the construction-time count) was found by the scheduler, is kept as a proved stuck-state witness, and is repaired (fix commit).",
+    level_note="Partial: termination proper (well-foundedness) is not proved; it is bounded by the scheduler's step bound in every explored run. Mutex / condvar semantics are modelled (atomic sections, atomic release-and-park, notify_all wakes all), not verified; the model cannot exhibit weak-memory effects.",
+    engines=PAR_ENGINES, trusted_base=PAR_TB,
+    assumptions=["mutex / condvar semantics as modelled", "a cell of upper_bounds per worker (true by construction since fix 0737e5d)"],
+    rule=PAR_RULE, trivial_tags=PAR_TRIVIAL,
+)
+PROPS["C03"] = dict(
+    modules=["DdoModel.Props.C03"],
+    theorems=["Ddo.C03.par_cover", "Ddo.C03.run_cover", "Ddo.C03.par_correct", "Ddo.ParCover.step_inv", "Ddo.ParCover.final"],
+    stated_not_proved=["Ddo.C03.ParRefinesCover (every section of the executable model is a step of the data-level system)", "runs with cache / dominance (C09 / C10)", "the infeasible case and the closed theorem with the diagram models plugged in"],
+    level_text="For the data-level transition system of the parallel solver (fringe, incumbent, and the nodes held by workers together with the stale incumbent each worker read and what its compilations answered; any number of workers; every interleaving of the critical sections and lock-free compilations) the coverage invariant is proved to be preserved by every step of every worker in every order under exactly the diagram contracts, and to imply that the incumbent is the optimum once nothing is open or held. The executable model of the parallel solver, which has the same sections, is validated against the real solver trace by trace under the controlled scheduler (thread counts 1..4, random and PCT schedules, cache accesses as scheduling points), and phi compares every final value with the exact optimum.",
+    level_note="Partial: proved without cache, dominance and cutoff; the refinement executable model -> data-level system is by construction of the definitions, not a checked refinement; synchronisation (no deadlock) is C04. Atomicity of the critical sections is assumed (mutex semantics).",
+    engines=PAR_ENGINES[:1], trusted_base=PAR_TB,
+    assumptions=["diagram contracts (C06-C08)", "atomic critical sections"],
+    rule=PAR_RULE, trivial_tags=PAR_TRIVIAL,
+)
+# the parallel parts of C02 / C05 ride on the same engine
+PROPS["C02"]["engines"] = PROPS["C02"]["engines"] + PAR_ENGINES
+PROPS["C05"]["engines"] = PROPS["C05"]["engines"] + [PAR_ENGINES[2]]
+PROPS["C05"]["level_note"] = "Partial: the parallel abort path is covered by trace validation + phi (bounds at every cutoff point of every explored schedule; this is how defect D4 was found, repaired by fix 976f40b), not yet by a theorem (par_cutoff_bounds stated)."
+PROPS["C05"]["stated_not_proved"] = ["par_cutoff_bounds (parallel part): evaluated by phi on every scheduled run with a cutoff"]
+
+PROPS["C08"] = dict(
+    modules=["DdoModel.Props.C08"],
+    theorems=["Ddo.C08.finalize_cutset", "Ddo.C08.cutset_exact", "Ddo.C08.cutset_progress", "Ddo.C08.cutset_empty_of_exact", "Ddo.compile_wf"],
+    stated_not_proved=["(iii) cutset_ub_valid and (iv) cutset_cover on Mdd.lean (design-time proofs exist on an abstract layered diagram: Locb.lean, Front.lean of DESIGN.md appendix B): evaluated by phi on every explored compilation",
+                       "pooled diagram: (ii) is false with long arcs in the current code (open known finding D5)"],
+    level_text="For the clean diagram model, both cut-set kinds (last exact layer and frontier), any cache / dominance configuration, both admissible resolutions of the exact-best-path tie: (i) every sub-problem handed out by the cut-set is exact - genuinely reached from the problem root by its path (root path followed by the decisions of its best-arc chain) with exactly its value and depth - and (ii) lies strictly deeper than the sub-problem the diagram was compiled for; the cut-set is empty when no layer was squashed. Proved through two invariants of the whole compilation loop (arcs only between consecutive layers; all nodes exact up to the last exact layer, which has index >= 1 in a relaxed compilation) and a preservation relation for the bottom-up passes (975 + 1150 lines of Lean). Clauses (iii) bound validity and (iv) coverage are evaluated against the exact value-to-go on every explored compilation. For the pooled diagram the checks rediscover D5 (clause (ii) fails with long arcs), recorded as an open known finding.",
+    level_note="Partial: (iii) and (iv) are evaluated (phi), not proved on this model; pooled by correspondence + phi with an open known finding. (iii) is evaluated only for compilations that received no dominance verdict (a child pruned in favour of a dominator of the same layer is soundly missing from the local bound - decision recorded in DESIGN.md). Hypothesis NoClamp. MddCutset.lean was produced by a delegated proof session, checked by the same lake build / axiom audit.",
+    engines=MDD_ENGINES, trusted_base=MDD_TB,
+    assumptions=["NoClamp", "the root sub-problem is exact (Reach)"],
+    rule=MDD_RULE + "; pooled diagrams additionally with long arcs", trivial_tags=MDD_TRIVIAL,
+)
